@@ -13,6 +13,7 @@ from __future__ import annotations
 
 import ast
 import copy
+import re
 from pathlib import Path
 from typing import Dict, List, Optional, Set, Tuple
 
@@ -970,9 +971,313 @@ def _desugar_count_iterators(fn: ast.AST) -> int:
     return n
 
 
+def _lit_const(e: ast.AST) -> bool:
+    if isinstance(e, ast.Constant):
+        return isinstance(e.value, (int, float, str)) and not isinstance(e.value, bool)
+    if isinstance(e, (ast.Tuple, ast.List)):
+        return bool(e.elts) and all(_lit_const(x) for x in e.elts)
+    if isinstance(e, ast.UnaryOp) and isinstance(e.op, ast.USub):
+        return _lit_const(e.operand)
+    return False
+
+
+def propagate_new_constants(trees: Dict[str, ast.Module], baseline: Optional[Set[str]] = None) -> List[str]:
+    """A literal constant (number, string, tuple / list of such) bound once at module or class level under a name the pinned tree
+    does not have is a *new* constant: its uses (`NAME`, `self.NAME`, `cls.NAME`, `Class.NAME`) in that module are replaced by
+    the literal before any rule runs - `for c in self._COMPONENTS` is `for c in ("ns", "ew", "vt")`."""
+    baseline = load_baseline() if baseline is None else baseline
+    if not baseline:
+        return []
+    done: List[str] = []
+    attr_stores = {x.attr for t in trees.values() for x in ast.walk(t) if isinstance(x, ast.Attribute) and isinstance(x.ctx, (ast.Store, ast.Del))}
+    for mname, tree in trees.items():
+        mod_consts: Dict[str, ast.AST] = {}
+        cls_consts: Dict[Tuple[str, str], ast.AST] = {}
+        for st in tree.body:
+            if isinstance(st, ast.Assign) and len(st.targets) == 1 and isinstance(st.targets[0], ast.Name) and _lit_const(st.value) \
+                    and f"const:{mname}.{st.targets[0].id}" not in baseline and not st.targets[0].id.startswith("__"):
+                mod_consts[st.targets[0].id] = st.value
+            elif isinstance(st, ast.ClassDef):
+                for x in st.body:
+                    if isinstance(x, ast.Assign) and len(x.targets) == 1 and isinstance(x.targets[0], ast.Name) and _lit_const(x.value) \
+                            and f"const:{mname}.{st.name}.{x.targets[0].id}" not in baseline and x.targets[0].id not in attr_stores:
+                        cls_consts[(st.name, x.targets[0].id)] = x.value
+        # a module constant must be bound exactly once in the module (no rebinding, no `global`)
+        for nm in list(mod_consts):
+            stores = [x for x in ast.walk(tree) if isinstance(x, ast.Name) and x.id == nm and isinstance(x.ctx, (ast.Store, ast.Del))]
+            glob = [x for x in ast.walk(tree) if isinstance(x, (ast.Global, ast.Nonlocal)) and nm in x.names]
+            params = [a for f in ast.walk(tree) if isinstance(f, (ast.FunctionDef, ast.Lambda)) for a in f.args.args + f.args.kwonlyargs if a.arg == nm]
+            if len(stores) != 1 or glob or params:
+                del mod_consts[nm]
+        if not mod_consts and not cls_consts:
+            continue
+        cls_by_attr: Dict[str, List[Tuple[str, ast.AST]]] = {}
+        for (cn, an), v in cls_consts.items():
+            cls_by_attr.setdefault(an, []).append((cn, v))
+
+        class Prop(ast.NodeTransformer):
+            def __init__(self):
+                self.cls: Optional[str] = None
+
+            def visit_ClassDef(self, node):
+                saved, self.cls = self.cls, node.name
+                # in the class body itself (defaults of its methods, other class-level statements) the constant is a bare name
+                here = {an: v for (cn, an), v in cls_consts.items() if cn == node.name}
+                if here:
+                    sub = _SubstNames(here)
+                    for m in node.body:
+                        if isinstance(m, (ast.FunctionDef, ast.AsyncFunctionDef)):
+                            m.args.defaults = [sub.visit(d) for d in m.args.defaults]
+                            m.args.kw_defaults = [sub.visit(d) if d is not None else None for d in m.args.kw_defaults]
+                self.generic_visit(node)
+                self.cls = saved
+                return node
+
+            def visit_Name(self, node):
+                if isinstance(node.ctx, ast.Load) and node.id in mod_consts:
+                    return ast.copy_location(copy.deepcopy(mod_consts[node.id]), node)
+                return node
+
+            def visit_Attribute(self, node):
+                self.generic_visit(node)
+                if isinstance(node.ctx, ast.Load) and node.attr in cls_by_attr and isinstance(node.value, ast.Name):
+                    for cn, v in cls_by_attr[node.attr]:
+                        if (node.value.id in ("self", "cls") and self.cls == cn) or node.value.id == cn:
+                            return ast.copy_location(copy.deepcopy(v), node)
+                return node
+        Prop().visit(tree)
+        ast.fix_missing_locations(tree)
+        done += [f"{mname}.{n}" for n in mod_consts] + [f"{mname}.{c}.{a}" for (c, a) in cls_consts]
+    return done
+
+
+class _SubstNames(ast.NodeTransformer):
+    def __init__(self, m: Dict[str, ast.AST]):
+        self.m = m
+
+    def visit_Name(self, node):
+        if isinstance(node.ctx, ast.Load) and node.id in self.m:
+            return ast.copy_location(copy.deepcopy(self.m[node.id]), node)
+        return node
+
+
+def _desugar_literal_dict_loops(fn: ast.AST) -> int:
+    """`D = {"a": x, "b": y}` (a local bound once, never modified) used as `for k, v in D.items(): <body>` / `for k in D:` /
+    `seq.extend(D)` / `list(D)`: the loop is its body once per entry, in order, and iterating the dict gives its keys.  The entry
+    values are evaluated once, where the dict is built (temporaries), exactly as before.  `setattr(o, "name", v)` with a literal
+    name is the store `o.name = v`."""
+    n = 0
+    cands = [st for st in ast.walk(fn) if isinstance(st, ast.Assign) and len(st.targets) == 1 and isinstance(st.targets[0], ast.Name)
+             and isinstance(st.value, ast.Dict) and st.value.keys and all(isinstance(k, ast.Constant) and isinstance(k.value, str) for k in st.value.keys)]
+    for d in cands:
+        name = d.targets[0].id
+        stores = [x for x in ast.walk(fn) if isinstance(x, ast.Name) and x.id == name and isinstance(x.ctx, (ast.Store, ast.Del))]
+        if len(stores) != 1:
+            continue
+        loads = [x for x in ast.walk(fn) if isinstance(x, ast.Name) and x.id == name and isinstance(x.ctx, ast.Load)]
+        # classify every use
+        uses = []
+        okay = True
+
+        def scan(block):
+            nonlocal okay
+            for st in block:
+                if isinstance(st, ast.For) and not st.orelse:
+                    it = st.iter
+                    if isinstance(it, ast.Call) and isinstance(it.func, ast.Attribute) and it.func.attr == "items" and not it.args \
+                            and isinstance(it.func.value, ast.Name) and it.func.value.id == name and isinstance(st.target, ast.Tuple) \
+                            and len(st.target.elts) == 2 and all(isinstance(e, ast.Name) for e in st.target.elts):
+                        uses.append(("items", block, st, it.func.value))
+                    elif isinstance(it, ast.Name) and it.id == name and isinstance(st.target, ast.Name):
+                        uses.append(("keys", block, st, it))
+                if isinstance(st, ast.Expr) and isinstance(st.value, ast.Call) and isinstance(st.value.func, ast.Attribute) \
+                        and st.value.func.attr == "extend" and len(st.value.args) == 1 and isinstance(st.value.args[0], ast.Name) and st.value.args[0].id == name:
+                    uses.append(("extend", block, st, st.value.args[0]))
+                for fld in ("body", "orelse", "finalbody"):
+                    sub = getattr(st, fld, None)
+                    if isinstance(sub, list) and sub and isinstance(sub[0], ast.stmt) and not isinstance(st, (ast.FunctionDef, ast.ClassDef)):
+                        scan(sub)
+        scan(fn.body)
+        if len(uses) != len(loads) or not uses:
+            continue
+        for kind, block, st, _ in uses:
+            if kind in ("items", "keys") and (any(isinstance(x, (ast.Break, ast.Continue, ast.Return, ast.Yield)) for x in ast.walk(st))
+                                               or len(st.body) > 6):
+                okay = False
+        if not okay:
+            continue
+        keys = [k.value for k in d.value.keys]
+        temps = {k: f"_{name}__{re.sub(r'[^0-9A-Za-z_]', '_', k)}" for k in keys}
+        # temporaries where the dict is built
+        parent_block = None
+
+        def find_block(block):
+            nonlocal parent_block
+            for st in block:
+                if st is d:
+                    parent_block = block
+                for fld in ("body", "orelse", "finalbody"):
+                    sub = getattr(st, fld, None)
+                    if isinstance(sub, list) and sub and isinstance(sub[0], ast.stmt) and not isinstance(st, (ast.FunctionDef, ast.ClassDef)):
+                        find_block(sub)
+        find_block(fn.body)
+        if parent_block is None:
+            continue
+        pre = [ast.copy_location(ast.Assign(targets=[ast.Name(id=temps[k], ctx=ast.Store())], value=v), d) for k, v in zip(keys, d.value.values)]
+        d.value = ast.copy_location(ast.Dict(keys=[ast.Constant(value=k) for k in keys], values=[ast.Name(id=temps[k], ctx=ast.Load()) for k in keys]), d.value)
+        i = parent_block.index(d)
+        parent_block[i:i] = pre
+        for kind, block, st, node in uses:
+            if kind == "extend":
+                st.value.args[0] = ast.copy_location(ast.List(elts=[ast.Constant(value=k) for k in keys], ctx=ast.Load()), node)
+                continue
+            new = []
+            for k in keys:
+                m = {st.target.elts[0].id: ast.Constant(value=k), st.target.elts[1].id: ast.Name(id=temps[k], ctx=ast.Load())} if kind == "items" \
+                    else {st.target.id: ast.Constant(value=k)}
+                for b in st.body:
+                    new.append(_SubstNames(m).visit(copy.deepcopy(b)))
+            j = block.index(st)
+            block[j:j + 1] = new
+        n += 1
+    # setattr(o, "name", v) as a statement
+    for node in ast.walk(fn):
+        for fld in ("body", "orelse", "finalbody"):
+            sub = getattr(node, fld, None)
+            if not (isinstance(sub, list) and sub and isinstance(sub[0], ast.stmt)):
+                continue
+            for i, st in enumerate(sub):
+                if isinstance(st, ast.Expr) and isinstance(st.value, ast.Call) and isinstance(st.value.func, ast.Name) and st.value.func.id == "setattr" \
+                        and len(st.value.args) == 3 and not st.value.keywords and isinstance(st.value.args[1], ast.Constant) \
+                        and isinstance(st.value.args[1].value, str) and st.value.args[1].value.isidentifier():
+                    o, k, v = st.value.args
+                    sub[i] = ast.copy_location(ast.Assign(targets=[ast.Attribute(value=o, attr=k.value, ctx=ast.Store())], value=v), st)
+                    n += 1
+    return n
+
+
+def _desugar_partial(fn: ast.AST) -> int:
+    """`p = functools.partial(f, a, k=v)` bound once and only ever called: every `p(x, j=w)` is `f(a, x, k=v, j=w)` (keywords
+    given at the call win).  Arguments that are not plain names / attributes / constants are first bound to temporaries where
+    the partial is built, so they are still evaluated once."""
+    n = 0
+    defs = [st for st in ast.walk(fn) if isinstance(st, ast.Assign) and len(st.targets) == 1 and isinstance(st.targets[0], ast.Name)
+            and isinstance(st.value, ast.Call) and st.value.args
+            and ((isinstance(st.value.func, ast.Attribute) and st.value.func.attr == "partial" and isinstance(st.value.func.value, ast.Name) and st.value.func.value.id == "functools")
+                 or (isinstance(st.value.func, ast.Name) and st.value.func.id == "partial"))
+            and not any(isinstance(a, ast.Starred) for a in st.value.args) and not any(k.arg is None for k in st.value.keywords)]
+    for d in defs:
+        name = d.targets[0].id
+        target = d.value.args[0]
+        if not _simple(target):
+            continue
+        stores = [x for x in ast.walk(fn) if isinstance(x, ast.Name) and x.id == name and isinstance(x.ctx, (ast.Store, ast.Del))]
+        loads = [x for x in ast.walk(fn) if isinstance(x, ast.Name) and x.id == name and isinstance(x.ctx, ast.Load)]
+        calls = [c for c in ast.walk(fn) if isinstance(c, ast.Call) and isinstance(c.func, ast.Name) and c.func.id == name]
+        if len(stores) != 1 or not loads or len(calls) != len(loads):
+            continue
+        block = None
+
+        def find(b):
+            nonlocal block
+            for st in b:
+                if st is d:
+                    block = b
+                for fld in ("body", "orelse", "finalbody"):
+                    sub = getattr(st, fld, None)
+                    if isinstance(sub, list) and sub and isinstance(sub[0], ast.stmt) and not isinstance(st, (ast.FunctionDef, ast.ClassDef)):
+                        find(sub)
+        find(fn.body)
+        if block is None:
+            continue
+        pre = []
+
+        def hold(e, tag):
+            if _simple(e):
+                return e
+            tmp = f"_{name}__{tag}"
+            pre.append(ast.copy_location(ast.Assign(targets=[ast.Name(id=tmp, ctx=ast.Store())], value=e), d))
+            return ast.Name(id=tmp, ctx=ast.Load())
+        pos = [hold(a, str(i)) for i, a in enumerate(d.value.args[1:])]
+        kws = [(k.arg, hold(k.value, k.arg)) for k in d.value.keywords]
+        for c in calls:
+            given = {k.arg for k in c.keywords if k.arg}
+            c.func = ast.copy_location(copy.deepcopy(target), c.func)
+            c.args = [copy.deepcopy(a) for a in pos] + list(c.args)
+            c.keywords = [ast.keyword(arg=a, value=copy.deepcopy(v)) for a, v in kws if a not in given] + list(c.keywords)
+        i = block.index(d)
+        block[i:i + 1] = pre or [ast.copy_location(ast.Pass(), d)]
+        n += 1
+    return n
+
+
+def _desugar_bool_vector(fn: ast.AST) -> int:
+    """`V = np.array([b0, b1, ...], dtype=float)` where every b_i is a local bound once to `bool(<condition>)` (or to a comparison)
+    is the vector `V = np.zeros(k)` with `V[i] = 1` exactly when b_i holds."""
+    n = 0
+
+    def flags_of(call):
+        if not (isinstance(call, ast.Call) and isinstance(call.func, ast.Attribute) and call.func.attr in ("array", "asarray") and len(call.args) == 1
+                and isinstance(call.args[0], (ast.List, ast.Tuple)) and call.args[0].elts and all(isinstance(e, ast.Name) for e in call.args[0].elts)):
+            return None
+        dt = [k for k in call.keywords if k.arg == "dtype"]
+        if len(call.keywords) != 1 or len(dt) != 1 or ast.unparse(dt[0].value) not in ("float", "np.float64", "np.double", "int"):
+            return None
+        return [e.id for e in call.args[0].elts]
+
+    def visit(block):
+        nonlocal n
+        for i, st in enumerate(list(block)):
+            for fld in ("body", "orelse", "finalbody"):
+                sub = getattr(st, fld, None)
+                if isinstance(sub, list) and sub and isinstance(sub[0], ast.stmt) and not isinstance(st, (ast.FunctionDef, ast.ClassDef)):
+                    visit(sub)
+            if not (isinstance(st, ast.Assign) and len(st.targets) == 1 and isinstance(st.targets[0], ast.Name)):
+                continue
+            names = flags_of(st.value)
+            if names is None or len(set(names)) != len(names):
+                continue
+            ok = True
+            for nm in names:
+                defs = [d for d in ast.walk(fn) if isinstance(d, ast.Assign) and any(isinstance(t, ast.Name) and t.id == nm for t in d.targets)]
+                others = [x for x in ast.walk(fn) if isinstance(x, ast.Name) and x.id == nm and isinstance(x.ctx, (ast.Store, ast.Del))]
+                v = defs[0].value if len(defs) == 1 else None
+                boolish = isinstance(v, (ast.Compare, ast.BoolOp)) or (isinstance(v, ast.Call) and isinstance(v.func, ast.Name) and v.func.id == "bool" and len(v.args) == 1) \
+                    or (isinstance(v, ast.UnaryOp) and isinstance(v.op, ast.Not))
+                if len(defs) != 1 or len(others) != 1 or not boolish:
+                    ok = False
+            if not ok:
+                continue
+            vec = st.targets[0].id
+            new = [ast.copy_location(ast.Assign(targets=[ast.Name(id=vec, ctx=ast.Store())],
+                                                value=ast.Call(func=ast.Attribute(value=ast.Name(id="np", ctx=ast.Load()), attr="zeros", ctx=ast.Load()),
+                                                               args=[ast.Constant(value=len(names))], keywords=[])), st)]
+            for k, nm in enumerate(names):
+                new.append(ast.copy_location(ast.If(test=ast.Name(id=nm, ctx=ast.Load()),
+                                                    body=[ast.Assign(targets=[ast.Subscript(value=ast.Name(id=vec, ctx=ast.Load()), slice=ast.Constant(value=k), ctx=ast.Store())],
+                                                                     value=ast.Constant(value=1))], orelse=[]), st))
+            j = block.index(st)
+            block[j:j + 1] = new
+            n += 1
+    visit(fn.body)
+    return n
+
+
 def desugar_match(trees: Dict[str, ast.Module]) -> int:
     n = 0
     for tree in trees.values():
+        for fn in [x for x in ast.walk(tree) if isinstance(x, (ast.FunctionDef, ast.AsyncFunctionDef))]:
+            if any(isinstance(c, ast.Call) and isinstance(c.func, ast.Attribute) and c.func.attr in ("array", "asarray") and any(k.arg == "dtype" for k in c.keywords)
+                   for c in ast.walk(fn)) and _desugar_bool_vector(fn):
+                ast.fix_missing_locations(tree)
+        if any(isinstance(x, (ast.Attribute, ast.Name)) and getattr(x, "attr", getattr(x, "id", "")) == "partial" for x in ast.walk(tree)):
+            for fn in [x for x in ast.walk(tree) if isinstance(x, (ast.FunctionDef, ast.AsyncFunctionDef))]:
+                if _desugar_partial(fn):
+                    ast.fix_missing_locations(tree)
+        if any(isinstance(x, ast.Dict) for x in ast.walk(tree)):
+            for fn in [x for x in ast.walk(tree) if isinstance(x, (ast.FunctionDef, ast.AsyncFunctionDef))]:
+                if any(isinstance(x, ast.Dict) and x.keys for x in ast.walk(fn)) and _desugar_literal_dict_loops(fn):
+                    ast.fix_missing_locations(tree)
         if any(isinstance(x, ast.Attribute) and x.attr == "count" and isinstance(x.value, ast.Name) and x.value.id == "itertools" for x in ast.walk(tree)):
             for fn in [x for x in ast.walk(tree) if isinstance(x, (ast.FunctionDef, ast.AsyncFunctionDef))]:
                 if _desugar_count_iterators(fn):
